@@ -440,6 +440,36 @@ def hex_check(ctx, c, outs):
     return None
 
 
+def _s2_theorem_bound(method, r):
+    """lower bound on max_g v.g proved in Properties/C19.lean for the full-sphere mesh (None: no theorem)"""
+    if method == "uv" and r >= 0.002:
+        return 1.0 - (r * np.pi / 180) ** 2 / 4          # squared chord <= (r pi/180)^2 / 2
+    if method == "equal_area" and 0.002 <= r <= 360:
+        return float(np.cos(r * np.pi / 360) - r / 180)
+    return None
+
+
+def _s2_adversarial(method, r):
+    """directions half-way between neighbouring grid lines, next to the poles and at the equator"""
+    out = []
+    if method == "equal_area":
+        D = int(np.ceil(90 / r))
+        us = [1 - (i + 0.5) / D for i in {0, 1, D - 1, D, 2 * D - 2, 2 * D - 1} if 0 <= i < 2 * D]
+        for u in us:
+            for j in (0, 1, 2 * D, 4 * D - 1):
+                ph = (j + 0.5) * np.pi / (2 * D)
+                s_ = np.sqrt(max(0.0, 1 - u * u))
+                out.append([s_ * np.cos(ph), s_ * np.sin(ph), u])
+    else:
+        na, npol = int(np.ceil(360 / r)), int(np.ceil(180 / r))
+        for i in {0, 1, npol // 2, npol - 1}:
+            th = (i + 0.5) * np.pi / npol
+            for j in (0, 1, na // 2, na - 1):
+                ph = (j + 0.5) * 2 * np.pi / na
+                out.append([np.sin(th) * np.cos(ph), np.sin(th) * np.sin(ph), np.cos(th)])
+    return np.array(out, dtype=float).reshape(-1, 3)
+
+
 def s2_any_check(ctx, c, outs):
     """every deterministic method at every positive resolution returns a non-empty set of unit vectors covering the
     sphere within the method's bound (also at resolutions on / next to the ceil boundaries and above 90 degrees)"""
@@ -462,6 +492,19 @@ def s2_any_check(ctx, c, outs):
     t = np.concatenate([t, np.eye(3), -np.eye(3)])
     rad = np.rad2deg(np.arccos(np.clip((t @ v.T).max(axis=1), -1, 1)))
     worst = float(rad.max())
+    # the bounds PROVED for the model (uv_mesh_covers_sphere, equal_area_mesh_covers_sphere) evaluated on the
+    # implementation's mesh, at random directions and at the directions half-way between the grid lines
+    r = float(c["resolution"])
+    thm = _s2_theorem_bound(c["method"], r)
+    if thm is not None:
+        tt = np.concatenate([t, _s2_adversarial(c["method"], r)])
+        best = (tt @ v.T).max(axis=1)
+        k = int(np.argmin(best))
+        ctx.dev(f"s2_theorem_bound_minus_best/{c['method']}", float(thm - best[k]))
+        if best[k] < thm - 1e-12:
+            return (f"sample_S2({r!r}, method={c['method']!r}) ({len(v)} vectors): direction {tt[k].tolist()} has largest scalar product "
+                    f"{best[k]!r} with the mesh < {thm!r}: the covering theorem proved for the model does not hold for the "
+                    f"implementation's mesh")
     # the sqrt(r) bound of equal_area was fitted at small r; at coarse resolutions the linear multiple applies to every method
     bound = max(float(S2_BOUND[c["method"]](c["resolution"])), 0.9 * c["resolution"])
     ctx.dev(f"s2_covering_over_bound/{c['method']}", worst / bound)
@@ -925,7 +968,7 @@ def generate(ctx):
 def run(ctx, status):
     driver_ok = lean_phase(ctx, status, ["OrixProofs.Properties.C19", "OrixProofs.Lemmas.SamplingBasic",
                                          "OrixProofs.Lemmas.SamplingUV", "OrixProofs.Lemmas.SamplingCube",
-                                         "OrixProofs.Lemmas.SO3Cover"], kernels=["so3_quat_point", "from_polar_xyz"])
+                                         "OrixProofs.Lemmas.SamplingEA", "OrixProofs.Lemmas.SO3Cover"], kernels=["so3_quat_point", "from_polar_xyz"])
     if ctx.replay:
         site, case, body = sites.load_replay(ctx.replay)
         if site in SITES:
